@@ -284,6 +284,7 @@ func verifyFunc(w *World, fi *FuncInfo, fc *FuncContract, sweep bool) (res *Func
 	if end != nil {
 		fr.returns = append(fr.returns, retPoint{st: end})
 	}
+	vc.checkAnchors(fc)
 	// postconditions
 	rnames := vc.resultNames(fc, sig)
 	if fc != nil {
